@@ -60,6 +60,7 @@ Behav(p) == { [n |-> "ok",        s |-> <<Resp("ok", 200, IPOf(p) \o "\n")>>,   
               [n |-> "4xx",       s |-> <<Resp("status", 404, IPOf(p))>>,                                   c |-> "final"],
               [n |-> "429",       s |-> <<Resp("status", 429, IPOf(p))>>,                                   c |-> "final"],
               [n |-> "invalid",   s |-> <<Resp("body", 200, "not-an-address")>>,                            c |-> "final"],
+              [n |-> "5xx_invalid", s |-> <<Resp("status", 503, "<html>service unavailable</html>")>>,       c |-> "final"],
               [n |-> "empty",     s |-> <<Resp("body", 200, "")>>,                                          c |-> "final"],
               [n |-> "zoned",     s |-> <<Resp("body", 200, "fe80::1%eth0")>>,                              c |-> "final"],
               [n |-> "addrport",  s |-> <<Resp("body", 200, IPOf(p) \o ":80")>>,                            c |-> "final"],
